@@ -58,6 +58,9 @@ def run(ctx: Ctx, env):
     from .common import check_node_construction
     check_node_construction(ctx, env, "R8.nodes-built-as-written", "the tree no longer has the shape the grammar's actions give it "
                             "(e.g. `not not a` parsed as `a`)")
+    from .common import check_fields_hold_declared_shapes
+    check_fields_hold_declared_shapes(ctx, env, "R8.fields-hold-what-they-declare", "that part of the filter is missing from the tree "
+                                      "(visitors meet None or a bare value where a node is declared)")
 
     # an operator token that a look-behind keeps from matching where the grammar expects it changes the tree (or refuses the filter)
     from .c06 import check_token_left_context
